@@ -223,6 +223,87 @@ def _only_err_returns(f, fa, start):
     return True
 
 
+def _slot_fill_loop(prog, f, fa, loops, n_t, names):
+    """`v = DataVec::new(); v.set_len(n); for slot in v.iter_mut() { *slot = decode(par)? }` -> (ok, detail, set_len block, stored value term, list local,
+    blocks allowed to mutate the list) or None when the function is not of this form.  set_len(n) makes the list n default elements long (P-call checks
+    n <= capacity), iter_mut yields each of the n slots once, front to back, and every completed iteration stores the decoded element into its slot: the
+    list ends as the n decoded elements in order - the same list n pushes build."""
+    import looprules
+    sets = [(b, t) for b, t in f.calls() if callee_of(t) == "util::data_vec::DataVec::<T, N>::set_len"]
+    if len(sets) != 1:
+        return None
+    setb, sett = sets[0]
+    h, body = list(loops.items())[0]
+    if setb in body:
+        return None
+    sa = fa.call_args(setb)
+    v = sa[0]
+    while v.op in ("ref", "mem", "memval"):
+        v = v.args[0]
+    if v.op != "loc":
+        return None
+    vloc = v.args[1]
+    why = []
+    if _strip_casts(sa[1]) is not _strip_casts(n_t):
+        why.append("set_len(%s) is not the count read" % show(sa[1], names))
+    # the loop is driven by IterMut::next over v.iter_mut()
+    nexts = [x for x in sorted(body) if f.term(x)["k"] == "call" and callee_of(f.term(x)) == "<core::slice::IterMut<'a, T> as core::iter::Iterator>::next"]
+    allowed = {setb}
+    item = None
+    if len(nexts) != 1:
+        why.append("%d IterMut::next calls in the loop" % len(nexts))
+    else:
+        ct = fa.call_term(nexts[0])
+        src = libmodel.iterator_source(ct, fa)
+        y = src[0] if src is not None else None
+        while y is not None and y.op == "call" and y.args[0] == libmodel.INTO_ITER:
+            y = y.args[1][0]
+        okit = y is not None and y.op == "call" and y.args[0] in ("util::data_vec::DataVec::<T, N>::iter_mut", "core::slice::<impl [T]>::iter_mut")
+        if okit:
+            r_ = y.args[1][0]
+            for _ in range(8):
+                if r_.op in ("ref", "mem", "memval"):
+                    r_ = r_.args[0]
+                elif r_.op == "call" and r_.args[0].endswith("DerefMut>::deref_mut") and r_.args[1]:
+                    r_ = r_.args[1][0]
+                else:
+                    break
+            okit = r_.op == "loc" and r_.args[1] == vloc
+        if not okit:
+            why.append("the loop does not run over the list's own iter_mut()")
+        for b_, t_ in f.calls():
+            c_ = callee_of(t_)
+            if c_ in ("util::data_vec::DataVec::<T, N>::iter_mut", "core::slice::<impl [T]>::iter_mut") or (c_ or "").endswith("DerefMut>::deref_mut"):
+                if b_ in body:
+                    why.append("a second mutable view of the list is taken inside the loop")
+                elif not _dominates(f, setb, b_):
+                    why.append("the slots are borrowed before the length is set")
+                allowed.add(b_)
+        item = mk("field", mk("downcast", ct, 1), 0)
+    # the store *slot = value: one per iteration, on every completed iteration
+    stores = []
+    for x in sorted(body):
+        for i, st_ in enumerate(f.blocks[x]["stmts"]):
+            if st_["k"] == "assign" and st_["place"]["proj"] and st_["place"]["proj"][0]["k"] == "deref" and len(st_["place"]["proj"]) == 1:
+                holder = fa.val(st_["place"]["local"], (x, i)) if hasattr(fa, "val") else None
+                if item is not None and holder is item:
+                    stores.append((x, i, st_))
+    pv = None
+    if len(stores) != 1:
+        why.append("%d stores into the current slot per iteration" % len(stores))
+    else:
+        x, i, st_ = stores[0]
+        pv = fa.rv_term(st_["rv"], (x, i))
+        okc, dc = looprules.action_complete(f, fa, x)
+        if not okc:
+            why.append(dc)
+    return (not why, "; ".join(why) if why else "set_len(count), then one decoded element stored into each slot of iter_mut()", setb, pv, vloc, allowed)
+
+
+def _dominates(f, a, b):
+    return f.dominates(a, b)
+
+
 def _decode_side(prog, res, mod, kind, N, f):
     fa = FA(f, prog)
     iv = Intervals(fa, prog)
@@ -271,8 +352,25 @@ def _decode_side(prog, res, mod, kind, N, f):
             # `while value.len() < n { value.push(..) }`: the list starts empty, the loop continues exactly while its length is below n, the one
             # push is on every path back to the head and nothing else changes the list - so it ends with exactly n pushes
             okr, d = _length_driven_loop(prog, f, fa, h, body, pushb, n_t, names)
-    res.ob("G-count", "%s::decode | reads exactly `count` elements, pushing each once, in order" % mod, okr and pushb is not None, d, loc, sample=d)
-    if pushb is not None:
+    fill = None
+    if not (okr and pushb is not None) and len(loops) == 1:
+        # the slot form the MSM fragment decoders use:  v = new(); v.set_len(n); for slot in v.iter_mut() { *slot = decode(par)? }
+        fill = _slot_fill_loop(prog, f, fa, loops, n_t, names)
+    if fill is not None:
+        okf, df, setb, pv_, vloc, allowed_ = fill
+        res.ob("G-count", "%s::decode | reads exactly `count` elements, pushing each once, in order" % mod, okf, df, loc, sample=df)
+        src = _continue_payload(pv_) if pv_ is not None else None
+        okp = src is not None and src.op == "call" and (src.args[0] == PARSE or (src.args[0] in prog.fns and src.args[0].endswith("::decode")))
+        if okp and src.args[0] == PARSE:
+            okp = is_const(src.args[1][1]) and const_val(src.args[1][1]) == 8
+        res.ob("G-count", "%s::decode | the value pushed is exactly what the element decoder / 8-bit read returned" % mod, okp, show(pv_, names) if pv_ is not None else "", loc)
+        import looprules
+        okm, dm = looprules.only_mutated_by(f, vloc, allowed_) if vloc is not None else (False, "list local not found")
+        res.ob("G-count", "%s::decode | the list is mutated only by that push" % mod, okm, dm, loc)
+        pushb = setb            # the capacity guard below is judged where the length is set
+    else:
+        res.ob("G-count", "%s::decode | reads exactly `count` elements, pushing each once, in order" % mod, okr and pushb is not None, d, loc, sample=d)
+    if pushb is not None and fill is None:
         pv = fa.call_args(pushb)[1]
         src = _continue_payload(pv)
         okp = src is not None and src.op == "call" and (src.args[0] == PARSE or (src.args[0] in prog.fns and src.args[0].endswith("::decode")))
